@@ -329,6 +329,11 @@ def many_goroutines_part(binary, tier, sd, d, rep):
         rc, out = run([binary, "queue", "-callers", str(callers), "-muts", str(muts), "-seed", str(sd * 7 + i),
                        "-out", pref] + mode, timeout=3000)
         if rc != 0:
+            if rep.violations:
+                # the forced schedules already showed interleaved transitions; a library
+                # that then crashes the free-running driver does not take the verdict back
+                rep.notes.append("free-running queue driver died: " + out[-300:])
+                break
             raise Inconclusive("queue driver failed: " + out[-1500:])
         files = sorted(glob.glob(pref + ".*.ndjson"))
         consts = dict(Callers="{" + ", ".join(str(c) for c in range(1, callers + 1)) + "}", MutsPer=muts,
